@@ -1062,7 +1062,7 @@ def wr1(F, R):
     oks = len(sk) == 1
     if oks:
         a = fn.term_of_operand(sk[0][1]["args"][1], sk[0][0])
-        oks = tmatch(a, ("bin", "Add", ("place", "_"), ("cast", "_"))) is not None and "current_offset" in tstr(a)
+        oks = (tmatch(a, ("bin", "Add", ("place", "_"), ("cast", "_"))) is not None or tmatch(a, ("bin", "Add", ("cast", "_"), ("place", "_"))) is not None) and "current_offset" in tstr(a)
     R.require(oks, fn, "advance-offset", "the file offset must become current_offset + to_copy", fn.loc(0))
     other_seeks = [b for b, t in fn.calls() if call_matches(t, ("FileInfo::seek_from_end", "FileInfo::seek_from_current"))]
     pos_stores = [(b, i) for b, i, s in fn.stmts() if s["k"] == "Assign" and s["p"]["proj"] and [e[2] for e in s["p"]["proj"] if e[0] == "field"][-1:] == ["current_offset"]]
